@@ -793,6 +793,8 @@ def symbolic_run(contract: Contract, tier="quick", mutate=None, stop_on=None) ->
             if S.exc is not None:
                 allowed = raises if isinstance(raises, dict) else {k: None for k in raises}
                 ok = any(isinstance(S.exc, k) for k in allowed)
+                if not ok and isinstance(S.exc, core.UnmodelledAttribute):
+                    raise Unsupported("the contract's setup does not model an attribute the code reads: %s" % S.exc)
                 if not ok:
                     ob = core.Obligation("%s/raises/unexpected:%s" % (contract.name, type(S.exc).__name__),
                                          list(c.pc), z3.BoolVal(False), "raises",
